@@ -40,7 +40,7 @@ from xmlschema.xpath import XMLSchemaProxy, ElementPathMixin, XPathElement
 from xmlschema.caching import schema_cache
 
 from .exceptions import XMLSchemaValidationError, XMLSchemaParseError, \
-    XMLSchemaStopValidation, XMLSchemaTypeTableWarning
+    XMLSchemaModelError, XMLSchemaStopValidation, XMLSchemaTypeTableWarning
 from .validation import ValidationContext, DecodeContext, EncodeContext, ValidationMixin
 from .helpers import parse_xsd_derivation, parse_xpath_default_namespace
 from .xsdbase import XSD_TYPE_DERIVATIONS, XSD_ELEMENT_DERIVATIONS, XsdComponent
@@ -603,7 +603,7 @@ class XsdElement(XsdComponent, ParticleMixin,
 
             except (XMLSchemaValidationError, XMLResourceParseError) as err:
                 context.validation_error(validation, self, err, elem)
-            except XMLSchemaParseError as err:
+            except (XMLSchemaParseError, XMLSchemaModelError) as err:
                 context.validation_error(validation, self, err.message, elem)
             except OSError:
                 continue
@@ -1485,7 +1485,7 @@ class Xsd11Element(XsdElement):
 
             except (XMLSchemaValidationError, ParseError) as err:
                 context.validation_error(validation, self, err, elem)
-            except XMLSchemaParseError as err:
+            except (XMLSchemaParseError, XMLSchemaModelError) as err:
                 context.validation_error(validation, self, err.message, elem)
             except OSError:
                 continue
